@@ -10,6 +10,7 @@ the `fmt dump` / `fmt load` correspondence streams.
 import Iodata.Lemmas.Fmt.Xyz
 import Iodata.Lemmas.Fmt.Sdf
 import Iodata.Lemmas.Fmt.Pdb
+import Iodata.Lemmas.Fmt.PdbConect
 import Iodata.Gen.Layouts
 
 namespace Iodata.Props.C02
@@ -99,13 +100,9 @@ example : Sdf.load tables sdfL (Sdf.dump tables sdfL ⟨['t'], sdfC100 ++ sdfC10
 
 /-! ## PDB
 
-Full statement: `∀ o (every field fits its columns, bonds between existing atoms),
-  Pdb.load T L (Pdb.dump T L o) = .ok (Pdb.norm L o)` where `norm` keeps title and atoms and turns the
-bond list into `normBonds` (each unordered pair once, ordered by first atom; PDB stores no bond type).
-Proved: the ATOM record for every atom (`pdb_atom_record`), and whole files without CONECT records
-(`pdb_load_dump_partial`).  Missing: the CONECT writer/reader loop (chunks of four, both directions) is
-modelled and executed in the correspondence (`dump:pdb`, `load:pdb` compare whole files with bonds byte
-for byte) but its round trip is not proved. -/
+`norm` keeps title and atoms and turns the bond list into `normBonds` (each unordered pair once, as
+`(a, b)` with `a < b`, ordered by first atom then by the order in which the writer met the partner; a bond
+listed twice stays listed twice; PDB stores no bond type). -/
 
 /-- PDB: the ATOM record written for any atom whose fields fit their columns (name ≤ 4, residue ≤ 3,
 resSeq ≤ 4 characters incl. sign, x/y/z in `8.3f`, occupancy/B in `6.2f`, serial ≤ 5 digits) is cut by
@@ -115,15 +112,37 @@ theorem pdb_atom_record (T : Tables) (L : Pdb.Layout) (hL : Pdb.LayoutOK L) (ser
     Pdb.parseAtom T L (Pdb.dumpAtom T L serial a) = .ok a :=
   Pdb.parseAtom_dumpAtom T L hL serial a hser ha
 
-/-- PDB, partial (no CONECT records): the written file is read back as the object, for any number of
-atoms the serial column holds. -/
-theorem pdb_load_dump_partial (T : Tables) (L : Pdb.Layout) (hL : Pdb.LayoutOK L) (o : Pdb.Obj) (h : Pdb.Dom T L o) :
-    Pdb.load T L (Pdb.dump T L o) = .ok (Pdb.norm L o) :=
-  Pdb.load_dump T L hL o h
+/-- PDB: the written file — TITLE, ATOM records, CONECT records (every bond in both directions, at most four
+partners per record, an extra record without partners when the count is a multiple of four), END — is read back
+as the object with its bonds de-duplicated, for any number of atoms the serial columns hold and any list of
+bonds between existing atoms (repeated bonds, any order, any number of partners per atom). -/
+theorem pdb_load_dump (T : Tables) (L : Pdb.Layout) (hL : Pdb.LayoutOK L) (hC : Pdb.ConectOK L) (o : Pdb.Obj)
+    (h : Pdb.DomB T L o) : Pdb.load T L (Pdb.dump T L o) = .ok (Pdb.norm L o) :=
+  Pdb.load_dump_bonds T L hL hC o h
+
+/-- PDB: one CONECT record with at most four partners is read as the bonds to the partners with a larger index. -/
+theorem pdb_conect_record (L : Pdb.Layout) (hC : Pdb.ConectOK L) (a : Nat) (others : List Nat)
+    (ha : (natToDec (a + 1)).length ≤ L.conW) (hlen : others.length ≤ 4)
+    (hfit : ∀ b ∈ others, (natToDec (b + 1)).length ≤ L.conW) :
+    Pdb.parseConect L (Pdb.conectLine L a others) = .ok ((others.filter (a < ·)).map fun b => (a, b)) :=
+  Pdb.parseConect_conectLine L hC a others ha hlen hfit
+
+/-- PDB: objects of the domain are written, not refused. -/
+theorem pdb_written_not_refused (T : Tables) (L : Pdb.Layout) (o : Pdb.Obj) (h : Pdb.DomB T L o) :
+    Pdb.dumpE T L o = .ok (Pdb.dump T L o) := by
+  unfold Pdb.dumpE
+  have h1 : (o.atoms.all fun a => (T.sym? a.zn).isSome) = true := by
+    rw [List.all_eq_true]; intro a ha
+    obtain ⟨s, hs, _⟩ := Pdb.okZ_spec (h.2.2.2.2.1 a ha).1
+    simp [hs]
+  have h2 : (o.bonds.all fun b => decide (b.1 < o.atoms.length) && decide (b.2 < o.atoms.length)) = true := by
+    rw [List.all_eq_true]; intro b hb
+    simp [h.2.2.2.2.2.2.2 b hb]
+  simp [h1, h2]
 
 /-- PDB: the layout in the source satisfies the side conditions: the writer's ATOM columns are the
 reader's slices; every element symbol fits the two element columns and is mapped back. -/
-theorem pdb_layout_ok : Pdb.LayoutOK pdbL ∧ ∀ z ∈ List.range' 1 118, Pdb.okZ tables z = true := by
+theorem pdb_layout_ok : Pdb.LayoutOK pdbL ∧ Pdb.ConectOK pdbL ∧ ∀ z ∈ List.range' 1 118, Pdb.okZ tables z = true := by
   decide +kernel
 
 /-- PDB: the writer and the reader in the source have the fields / slices the model uses. -/
@@ -144,9 +163,18 @@ theorem pdb_conect_examples :
     Pdb.parseConect pdbL (Pdb.conectLine pdbL 5 [99998, 0, 6, 12344]) = .ok [(5, 99998), (5, 6), (5, 12344)] := by
   decide +kernel
 
-/-- non-vacuity at the column boundaries: x = −999.999, y = 9999.999, resSeq −999 and 9999, B = 999.99. -/
-example : Pdb.Dom tables pdbL ⟨[], [⟨17, ['C','l','1','2'], ['A','B','C'], 'A', -999, ⟨true, 999999⟩, ⟨false, 9999999⟩,
-    ⟨true, 0⟩, ⟨false, 100⟩, ⟨false, 99999⟩⟩, ⟨1, [], [], ' ', 9999, ⟨false, 0⟩, ⟨false, 1⟩, ⟨true, 1⟩, ⟨true, 999⟩, ⟨false, 0⟩⟩], []⟩ := by
+/-- non-vacuity at the column boundaries: x = −999.999, y = 9999.999, resSeq −999 and 9999, B = 999.99;
+bonds in both orders, a repeated bond, an atom with exactly four partners (extra empty record) and one with five. -/
+example : Pdb.DomB tables pdbL ⟨[], [⟨17, ['C','l','1','2'], ['A','B','C'], 'A', -999, ⟨true, 999999⟩, ⟨false, 9999999⟩,
+    ⟨true, 0⟩, ⟨false, 100⟩, ⟨false, 99999⟩⟩, ⟨1, [], [], ' ', 9999, ⟨false, 0⟩, ⟨false, 1⟩, ⟨true, 1⟩, ⟨true, 999⟩, ⟨false, 0⟩⟩],
+    [(0, 1), (1, 0), (0, 1), (0, 1), (1, 0)]⟩ := by
   decide +kernel
+
+/-- non-vacuity of the chunking: four partners give a full record plus an empty one, five give 4 + 1. -/
+example : Pdb.dumpConect pdbL 6 [(0, 1), (0, 2), (0, 3), (0, 4)] =
+    ["CONECT    1    2    3    4    5\n".toList, "CONECT    1\n".toList, "CONECT    2    1\n".toList,
+     "CONECT    3    1\n".toList, "CONECT    4    1\n".toList, "CONECT    5    1\n".toList] ∧
+    (Pdb.dumpConect pdbL 6 [(0, 1), (0, 2), (0, 3), (0, 4), (5, 0)]).take 2 =
+    ["CONECT    1    2    3    4    5\n".toList, "CONECT    1    6\n".toList] := by decide +kernel
 
 end Iodata.Props.C02
